@@ -638,9 +638,14 @@ pub fn gen_c16(tier: Tier, seed: u64, em: &mut Emitter) {
     // wrap-around sandwiches: progress on channel c, W-1 resets, a non-contributing message on
     // c, one more reset, then the completion on c -- a lazily applied reset (generation counter
     // of 8 or 16 bits) must not be undone by the message in between
+    // (thorough tier, optimised std build: also W = 2^32, one variant per scanner)
+    let huge = tier == Tier::Thorough && !cfg!(debug_assertions);
     for kind in 0..3i64 {
-        for &w in &[256i64, 65536] {
+        for &w in &[256i64, 65536, 1i64 << 32] {
             for variant in 0..6 {
+                if w > 65536 && (!huge || variant != 0) {
+                    continue;
+                }
                 let timeout = if kind == 2 { r.pick(&[0i64, 5, 1000]) } else { 0 };
                 let c = r.below(16) as i64;
                 let mut prior: Vec<i64> = if kind == 0 {
